@@ -504,6 +504,8 @@ class NumericValue(Value):
 
         data = INT_REGEX.match(value)
         if data:
+            if len(data.group("value").lstrip("0")) > 5:
+                raise ValueTypeError("integer value cannot exceed 65535")
             self.int = int(data.group("value"), 10)
             if self.int > 65535:
                 raise ValueTypeError("integer value cannot exceed 65535")
@@ -512,6 +514,8 @@ class NumericValue(Value):
 
         data = NEG_INT_REGEX.match(value)
         if data:
+            if len(data.group("value").lstrip("0")) > 5:
+                raise ValueTypeError("integer value cannot be below -32768")
             self.int = int(data.group("value"), 10)
             if self.int > 32768:
                 raise ValueTypeError("integer value cannot be below -32768")
